@@ -47,6 +47,7 @@ def needFor (q : Int → Bool) : Nat → List Int → Option Nat
 /-- `flatten` over the inner pipelines started for the outer items `rest`: delivered items, iterator advances of the inners, number
 of inners started, and whether the outer was run to its end (as opposed to the demand being met first) -/
 def flatGo (semG : Int → Demand → List Int × Nat) : List Int → Demand → List Int → Nat → Nat → List Int × Nat × Nat × Bool
+  | _, some 0, acc, cost, started => (acc, cost, started, false)     -- the demand is met: nothing more is started
   | [], _, acc, cost, started => (acc, cost, started, true)
   | a :: rest, dem, acc, cost, started =>
     match dem with
